@@ -108,6 +108,11 @@ func switchToParentThread(L *LState, nargs int, haserror bool, kill bool) {
 	}
 	L.G.CurrentThread = parent
 	L.Parent = nil
+	if kill {
+		// first: handing the results over can fail (the resumer's registry
+		// may be full), and the coroutine has ended whatever happens to them
+		L.kill()
+	}
 	if !L.wrapped {
 		if haserror {
 			parent.Push(LFalse)
@@ -120,9 +125,6 @@ func switchToParentThread(L *LState, nargs int, haserror bool, kill bool) {
 	offset := L.currentFrame.LocalBase - L.currentFrame.ReturnBase
 	L.currentFrame = L.stack.Last()
 	L.reg.SetTop(L.reg.Top() - offset) // remove 'yield' function(including tailcalled functions)
-	if kill {
-		L.kill()
-	}
 }
 
 // yieldFromGoBody suspends a coroutine whose body is a Go function that
